@@ -10,16 +10,16 @@
 (* The numeric solution itself is not modelled (DESIGN 1): it is observed from the implementation and judged by      *)
 (* Phase3Obs.tla with the operators of Phase3Def.tla applied to the same configuration.                              *)
 (* Every state with stage "done" / "rejected" is instantiated on the real code by harness/checks/c11.py (S -> I);    *)
-(* `rows` is what the harness writes into the element tables (in level units), so that no level table exists in      *)
-(* Python.                                                                                                           *)
+(* `plant` / `rows` are what the harness builds: wiring + in_service flags of the template, and the element table     *)
+(* values in level units -- no wiring or level table exists in Python.                                              *)
 EXTENDS Phase3Def, TLC
 CONSTANTS NSlots,        \* number of element slots
           ElemBuses,     \* buses that may carry elements
           Pats,          \* level patterns of asymmetric elements: "bal" a=b=c, "unb" distinct levels, "zero" one phase 0
           Mods,          \* modifiers: "none", "oos", "half"
           VGs, Topos
-VARIABLES cfg, rows, stage, sup, smap, req
-vars == <<cfg, rows, stage, sup, smap, req>>
+VARIABLES cfg, plant, rows, stage, sup, smap, req
+vars == <<cfg, plant, rows, stage, sup, smap, req>>
 
 ElemOpts == {NoElem}
             \cup [kind : SymKinds, bus : ElemBuses, conn : Conn, pat : {"bal"}, mod : Mods]
@@ -40,34 +40,35 @@ Configs == {c \in [vg : VGs, topo : Topos, elems : [1..NSlots -> ElemOpts]] : Ne
 
 Row(e) == [pt |-> TabTotal(e, "p"), qt |-> TabTotal(e, "q"), p |-> TabPhase(e, "p"), q |-> TabPhase(e, "q"),
            scaling2 |-> ScNum(e), in_service |-> (e.mod # "oos")]
-Mapping(c) == [b \in Bus |-> [typ \in Conn |-> [pq \in {"p", "q"} |-> [ph \in Ph |-> Sabc(c, b, ph, typ, pq)]]]]
 NoMap == [b \in Bus |-> [typ \in Conn |-> [pq \in {"p", "q"} |-> [ph \in Ph |-> 0]]]]
 NoReq == [class |-> "none", netbal |-> FALSE, checked |-> FALSE, perphase |-> {}, live |-> {}, slackload |-> FALSE]
 
+\* what the harness has to build: wiring and in_service flags of the template for this topology
+Plant(c) == [ends |-> LineEnds, lines |-> TopoLines(c.topo), thv |-> TrafoHv, tlv |-> TrafoLv, trafo |-> TopoTrafo(c.topo)]
 Init == /\ cfg \in Configs
+        /\ plant = Plant(cfg)
         /\ rows = [i \in 1..NSlots |-> Row(cfg.elems[i])]
         /\ stage = "input" /\ sup = {} /\ smap = NoMap /\ req = NoReq
 Convert == /\ stage = "input"
            /\ stage' = IF Rejects(cfg) THEN "rejected" ELSE "converted"
            /\ sup' = IF Rejects(cfg) THEN {} ELSE Supplied(cfg)
-           /\ UNCHANGED <<cfg, rows, smap, req>>
+           /\ UNCHANGED <<cfg, plant, rows, smap, req>>
 MapLoads == /\ stage = "converted"
             /\ smap' = Mapping(cfg)
             /\ stage' = "mapped"
-            /\ UNCHANGED <<cfg, rows, sup, req>>
+            /\ UNCHANGED <<cfg, plant, rows, sup, req>>
 Require == /\ stage = "mapped"
-           /\ req' = [class |-> Class(cfg), netbal |-> NetBalanced(cfg), checked |-> Checked(cfg),
+           /\ req' = [class |-> Class(cfg), netbal |-> BalancedMap(smap, sup), checked |-> Checked(cfg),
                       perphase |-> {b \in Bus : PerPhase(cfg, b)}, live |-> {i \in 1..NSlots : Live(cfg, i)},
                       slackload |-> (\E i \in 1..NSlots : Live(cfg, i) /\ cfg.elems[i].bus = SlackBus)]
            /\ stage' = "done"
-           /\ UNCHANGED <<cfg, rows, sup, smap>>
+           /\ UNCHANGED <<cfg, plant, rows, sup, smap>>
 Next == Convert \/ MapLoads \/ Require
 
 \* ---- model-level requirements, checked by TLC on every configuration -------------------------------------------------
-Mapped == stage \in {"mapped", "done"}
 SumTyp(b, pq, ph) == smap[b]["wye"][pq][ph] + smap[b]["delta"][pq][ph]
 \* the three-phase route and the symmetric route are given the same total power at every bus (any configuration)
-M_TotalsAgree == Mapped => \A b \in Bus : \A pq \in {"p", "q"} :
+M_TotalsAgree == stage = "mapped" => \A b \in Bus : \A pq \in {"p", "q"} :
                     SumTyp(b, pq, 1) + SumTyp(b, pq, 2) + SumTyp(b, pq, 3) = SymBus(cfg, b, pq)
 \* all elements symmetric => every bus is given the same power in the three phases, one third of the symmetric total
 M_SymmetricImpliesBalanced == stage = "done" => (req.class = "balanced" => req.netbal)
@@ -76,7 +77,7 @@ M_BalancedThird == stage = "done" /\ req.class = "balanced" =>
 \* out-of-service elements and elements on unsupplied buses are inert: the mapping is that of the configuration
 \* without them
 Strip(c) == [c EXCEPT !.elems = [i \in 1..NSlots |-> IF Live(c, i) THEN c.elems[i] ELSE NoElem]]
-M_DeadElementsInert == Mapped => smap = Mapping(Strip(cfg)) /\ Class(Strip(cfg)) = Class(cfg)
+M_DeadElementsInert == stage = "mapped" => smap = Mapping(Strip(cfg)) /\ Class(Strip(cfg)) = Class(cfg)
 M_PerPhaseScope == stage = "done" => /\ req.perphase \subseteq sup
                                      /\ (req.class = "balanced" => req.perphase = sup)
                                      /\ SlackBus \in sup
